@@ -884,6 +884,28 @@ def many_sinks_part(ctx):
     ctx.notes["many_sinks_case"] = {"states": n, "sinks": len(snk)}
 
 
+def memory_capped_part(ctx, b):
+    """behaviour after a handled error (harness/tpt_capped.py): a sparse chain too large to densify under an
+    address-space cap; a MemoryError is an answer, a returned vector must satisfy the clauses"""
+    import subprocess
+    env = dict(os.environ, OMP_NUM_THREADS="1", OPENBLAS_NUM_THREADS="1", PYTHONPATH="")
+    p = subprocess.run([core.PY, os.path.join(core.VERIF, "harness", "tpt_capped.py"), b], stdout=subprocess.PIPE,
+                       stderr=subprocess.PIPE, text=True, env=env, timeout=900)
+    line = [l for l in p.stdout.splitlines() if l.startswith("CAPPED ")]
+    if not line:
+        raise core.MachineryError("tpt_capped.py printed no result (rc=%s): %s" % (p.returncode, p.stderr[-1500:]))
+    recs = json.loads(line[-1][len("CAPPED "):])
+    for r in recs:
+        ctx.case(("memory-capped", r["call"], r["container"]))
+        ctx.traces += 1
+        for clause in r.get("failed_clauses", []):
+            _violation(ctx, dict(r, kind="replay", clause=clause,
+                                 how="harness/tpt_capped.py <build>: 30000-state sparse line chain, RLIMIT_AS = current + 1.5 GiB; "
+                                     "LineChain.tla clause evaluated on the returned vector"),
+                       key="committors/%s/memory-capped/%s" % (r["container"], clause))
+    ctx.notes["memory_capped_outcomes"] = {r["container"]: r["outcome"] for r in recs}
+
+
 def run(ctx):
     ctx.assumptions += ["large chains (LineChain.tla): reversible nearest-neighbour chains with 999..1200 states, "
                         "closed-form values checked by TLC against the first-step equations; all-pairs tables of "
@@ -935,6 +957,7 @@ def run(ctx):
     t3 = time.time()
     ctx.notes["replayed_line_cases"] = _replay_line_results(ctx, line_results, ljobs)
     many_sinks_part(ctx)
+    memory_capped_part(ctx, b)
     ctx.notes["wall_s_line_replay"] = round(time.time() - t3, 1)
     ctx.notes["wall_s_tlc_traces_replay"] = [round(t1 - t0, 1), round(t2 - t1, 1), round(t3 - t2, 1)]
     if any("sample" in sc or sc.get("only_emit") or sc.get("multi") or sc.get("emit", 0) < sc.get("parts", 0)
